@@ -80,6 +80,7 @@ type Config struct {
 	StallMax      time.Duration
 	Sticky        int             // per mille probability to keep running the same task when it is ready (generation only)
 	LockYield     map[string]bool // package path suffixes for which Lock() is a scheduling point
+	IOStall       int             // per mille probability that a file/stream operation of the tool (Read through an io.Reader, bufio Flush/WriteString, os.File Read/Write) is preceded by a simulated stall of 50 ms - 3 s (slow disk, slow pipe)
 	Trace         bool
 }
 
@@ -91,6 +92,7 @@ type Sim struct {
 	tasks     []*Task
 	byG       map[uint64]*Task
 	procs     []*Proc
+	ioStalls  int
 	wakeSched chan struct{}
 	last      *Task
 	Steps     int
